@@ -3,7 +3,7 @@ CONSTANTS
   Spellings = {"after_list", "between_lists", "merged", "split", "split_rev", "apart"}
   Idents = {"UserId", "A", "Foo", "FooBar", "Foo2Bar", "HTTPServer", "IOError", "ID", "URL", "HTTP2", "Init", "Default", "None", "Class", "In", "Self_"}
   Renames = {"empty", "none", "x", "foo-bar", "Other_Name", "init", "$ref", "$a_quote_b", "default"}
-  Kinds = {"unit", "newtype", "struct"}
+  Kinds = {"newtype_opt", "unit", "newtype", "struct"}
   RuleSet = {"none", "lowercase", "UPPERCASE", "PascalCase", "camelCase", "snake_case", "SCREAMING_SNAKE_CASE", "kebab-case", "SCREAMING-KEBAB-CASE"}
   TagPairs = {"type_content", "t_c", "kind_data", "myTag_my_content"}
   Flavours = {"plain", "recursive", "generic"}
